@@ -2,7 +2,7 @@
   Round-trip, fourth layer: FETCH attributes (msg-att), the attribute list, FETCH responses, and the
   untagged-response wrapper; plus the simple untagged data responses.
 -/
-import ImapVerif.Proofs.RTBody3
+import ImapVerif.Proofs.RTSection
 
 open Bytes Parser Grammar
 
@@ -38,21 +38,6 @@ theorem msgAttGmailLabels_err (u m r) (h : mismatch (b!"X-GM-LABELS ") u = true)
   unfold msgAttGmailLabels gmailLabelList; exact map_err _ _ _ (kwBind_err _ _ u m r h)
 
 /-! ### `BODY` as a prefix of `BODYSTRUCTURE ` and of `BODY ` -/
-
-theorem spell_append (a b : Bytes) (m : List Bool) :
-    spell (a ++ b) m = spell a m ++ spell b (m.drop a.length) := by
-  induction a generalizing m with
-  | nil => cases m <;> simp [spell]
-  | cons c cs ih =>
-    cases m with
-    | nil => simp [spell, spell_nil]
-    | cons k ks => simp [spell, ih]
-
-theorem spell_cons (c : UInt8) (t : Bytes) (m : List Bool) :
-    ∃ c', spell (c :: t) m = c' :: spell t m.tail ∧ (c' = c ∨ c' = flipCase c) := by
-  cases m with
-  | nil => exact ⟨c, by simp [spell, spell_nil], Or.inl rfl⟩
-  | cons k ks => cases k <;> simp [spell]
 
 theorem section_err (x : UInt8) (r : Bytes) (h : (x == 91) = false) : section_ (x :: r) = .err := by
   simp [section_, Bind.bind, Parser.bindP, char, h]
@@ -107,6 +92,9 @@ inductive EncAttr : AttributeValue → Bytes → Prop
       EncAttr (.uid n) (spell (b!"UID ") m ++ e)
   | gmailMsgId (m : List Bool) (n : Nat) (e : Bytes) : n < 2 ^ 64 → EncNumber n e →
       EncAttr (.gmailMsgId n) (spell (b!"X-GM-MSGID ") m ++ e)
+  | bodySection (m : List Bool) (sect : Option SectionPath) (es : Bytes) (idx : Option Nat) (eo : Bytes)
+      (data : Option Bytes) (ed : Bytes) : EncSection sect es → EncOrigin idx eo → EncNString data ed →
+      EncAttr (.bodySection sect idx data) (spell (b!"BODY") m ++ (es ++ (eo ++ (b!" " ++ ed))))
   | bodyStructure (m : List Bool) (b : BodyStructure) (e : Bytes) : EncBody 33 b e →
       EncAttr (.bodyStructure b) (spell (b!"BODYSTRUCTURE ") m ++ e)
   /-- the non-extensible form `BODY (...)` yields the same value kind -/
@@ -279,6 +267,8 @@ theorem msgAtt_enc (v : AttributeValue) (e : Bytes) (h : EncAttr v e) :
     · intro rest _; rw [List.append_assoc]; exact msgAttBody_err _ _ _ (by decide)
     · intro rest _; rw [List.append_assoc]; exact msgAttBodyStructure_err _ _ _ (by decide)
     · intro rest _; rw [List.append_assoc]; exact msgAttBodySection_err _ _ _ (by decide)
+  | bodySection m sect es idx eo data ed hs ho hd =>
+    exact Parses.altL (msgAttBodySection_enc m sect es hs idx eo ho data ed hd _)
   | bodyStructure m b e he =>
     refine Parses.altR (Parses.altL ?_) ?_
     · unfold msgAttBodyStructure
